@@ -17,6 +17,16 @@ CLAIMED = {
         note="Trusted: TLC/SANY, the TLA+ SM3 text (two standard vectors), the verif-tag projection sm3.VerifState. "
              "Lengths are bounded (quick 0..200 + 10 longer, thorough 0..1100).",
         ref="6 C04"),
+    "C20": dict(
+        technique="TLA+ definitions (Util) + algorithm-as-coded model (CmpNaf) checked exhaustively by TLC at small size; TLC trace validation of recorded calls",
+        text="TLC checks exhaustively that the borrow-chain comparison and the signed-window recoding loop as coded "
+             "(getBit/getBits/carry/index arithmetic, 8-bit bytes) meet the definitions for all pairs of 3-symbol strings "
+             "and all 16-bit inputs x w=1..7; every recorded call of the real ConstantTimeCmp / DecomposeNAF on "
+             "structured and random 256-bit inputs is judged by TLC against the same definitions (result = lexicographic "
+             "order; digits zero-or-odd, |d|<2^w, w zeros after a non-zero digit, weighted sum = input by exact carry "
+             "reconstruction).",
+        note="Trusted: TLC/SANY, Util.tla. 256-bit inputs are sampled (structured classes + seeded random), exhaustive at 16 bits only.",
+        ref="6 C20"),
 }
 
 NOT_YET = "check not built yet in this round (see DESIGN.md section 12 build order)"
